@@ -47,7 +47,7 @@ func decodeMarker(t *decoder.Tree) string {
 func init() {
 	runners["C20"] = func(cfg *runCfg) (*Summary, error) {
 		sum := &Summary{Distribution: map[string]int{}}
-		sum.Rule = "histories of 3-9 Parse / RegisterDecoderKey / RegisterDecoderID / RegisterDecoder calls over 6 texts per history (generated programs, the empty text, a blank text, two different texts of equal length, a text with a parse error), re-registering keys with other trees between two parses of one text; oracle: every Parse returns the error and a tree structurally identical to (and decoding like) the one the same text gives in an empty registry, and never changes the bytes it is given. distinct_nontrivial = histories in which some text is parsed again after a registration"
+		sum.Rule = "histories of 3-9 Parse / RegisterDecoderKey / RegisterDecoderID / RegisterDecoder calls over 7 texts per history (generated programs, the empty text, a blank text, two different texts of equal length, a text with a parse error, a text using a function name that is registered in another spelling only), re-registering keys with other trees between two parses of one text; oracle: every Parse returns the error and a tree structurally identical to (and decoding like) the one the same text gives in an empty registry, and never changes the bytes it is given. distinct_nontrivial = histories in which some text is parsed again after a registration"
 		rng := newPRNG(cfg.seed)
 		n := 120
 		if cfg.tier == "thorough" {
@@ -60,7 +60,9 @@ func init() {
 			p1 := genProgramText(rng, nil)
 			a := fmt.Sprintf("obj.Status = %d\n", 100+rng.intn(800))
 			b := fmt.Sprintf("obj.Status = %d\n", 100+rng.intn(800))
-			texts := []string{"", " \n\t", a, b, p1, "if obj.Status == 1 {\nobj.Id = \"x\"\n"}
+			texts := []string{"", " \n\t", a, b, p1, "if obj.Status == 1 {\nobj.Id = \"x\"\n",
+				// a name that is registered in another spelling only: rejected, and the bytes stay as given
+				pick(rng, []string{"obj.Id = jso.s|Default(\"x\")\n", "obj.Name = jso.s|UpperFirst\n", "Probe(jso.a)\n", "obj.Id = Crc32(jso.s)\n", "obj.Id = jso.s|Upper()\nobj.Status = 5\n"})}
 			// reference results in an empty registry
 			ref := make([]parseObs, len(texts))
 			refMark := make([]string, len(texts))
